@@ -168,7 +168,9 @@ theorem backdate_value {old cq cq1 : Memo} (h : backdateIfAppropriate old cq = s
   · split at h
     · cases h
     · cases h; rfl
-  · cases h; rfl
+  · split at h
+    · cases h; rfl
+    · cases h; rfl
 
 theorem goodC_executeQuery (P : Prog) {sub : Eng} (hs : EngGood B i sub) (hNF : NoFb P)
     (hNA : NoAdd P) (hB : Post P B i) (c : Nat) (old : Option Memo) (mode0 : Mode) {s0 : St}
